@@ -6,6 +6,7 @@ truncated, torn texts), on the pulse-module store (missing / broken / raising mo
 cancellation at line event k, and with nested calls at the library's two re-entrancy points.
 """
 import copy
+import json
 import os
 import shutil
 import sys
@@ -296,6 +297,15 @@ class Session:
             return lambda: parse_jaqal_file_header(path)
         return lambda: unwrap(parse_jaqal_string(txt, **kw))
 
+    def shared_backend(self):
+        """One emulator backend object for the whole lifetime of this session."""
+        if getattr(self, "_shared_be", None) is None:
+            from jaqalpaq.emulator.unitary import UnitarySerializedEmulator
+
+            self._shared_be = UnitarySerializedEmulator()
+            self.probe("shared_backend_object")
+        return self._shared_be
+
     def pass_callable(self, name, override, c):
         from jaqalpaq.core.algorithm import expand_macros, fill_in_let, expand_subcircuits
         from jaqalpaq.core.algorithm.fill_in_map import fill_in_map
@@ -323,7 +333,7 @@ class Session:
             return lambda: normalize_blocks_with_unitary_timing(c)
         raise ValueError(name)
 
-    def analyse_callable(self, op, c, j, fresh=None):
+    def analyse_callable(self, op, c, j, fresh=None, shared=False):
         from jaqalpaq.generator import generate_jaqal_program
         from jaqalpaq.core.algorithm.used_qubit_visitor import get_used_qubit_indices
         from jaqalpaq.run import run_jaqal_circuit
@@ -341,6 +351,8 @@ class Session:
                 s = seams.SimSampler(Tape(seed), "faithful")
                 old = seams.install_sampler(s)
                 try:
+                    if op.get("shared_be") and shared:
+                        return run_jaqal_circuit(c, backend=self.shared_backend())
                     return run_jaqal_circuit(c)
                 finally:
                     seams.install_sampler(old)
@@ -520,6 +532,7 @@ def plan_c11(run_seed):
     p_interrupt = t.choice([0.0, 0.3, 0.5])
     p_nested = t.choice([0.0, 0.2, 0.4])
     p_bad = t.choice([0.0, 0.15])
+    p_shared_be = t.choice([0.0, 0.0, 0.6])
     ops = []
     live = []  # (pool id, text index, is_result)
     nid = 0
@@ -569,6 +582,8 @@ def plan_c11(run_seed):
             name = t.choice(enabled_an)
             op = {"op": "analyse", "name": name, "src": src}
             if name == "run":
+                if t.chance(p_shared_be):
+                    op["shared_be"] = True
                 op["keep"] = len(live) < 6
                 if op["keep"]:
                     live.append((nid, ti, True))
@@ -672,7 +687,7 @@ def exec_c11(plan):
             def mk(target, fresh_for_eq):
                 if kind == "pass":
                     return S.pass_callable(opname, op.get("override"), target)
-                return S.analyse_callable(op, target, j, fresh_for_eq)
+                return S.analyse_callable(op, target, j, fresh_for_eq, shared=target is c)
 
             budget = 5_000_000
             ot = seams.outcome_of(mk(fresh, fresh2), S.clock, budget)
@@ -842,6 +857,38 @@ def needs_twin(prop):
     return prop == "C16"
 
 
+def needs_pristine_reference(prop):
+    """C11 ('the same results as on a freshly parsed copy') and C16 ('the same result
+    regardless of what was processed before') are also statements about what earlier
+    *runs* of the same process left behind: the last run of every chunk is executed once
+    more, alone, in a process that has never run anything."""
+    return prop in ("C11", "C16")
+
+
+def pristine_reference(plan):
+    rec = _execute_inner(plan)
+    return {"digest": rec["digest"], "log": rec.get("log")}
+
+
+def compare_pristine(rec, ref):
+    if not ref or rec.get("digest") == ref.get("digest"):
+        return
+    a, b = rec.get("log") or [], ref.get("log") or []
+    k = next((i for i, (x, y) in enumerate(zip(a, b)) if json.loads(json.dumps(x)) != json.loads(json.dumps(y))), min(len(a), len(b)))
+    here = a[k] if k < len(a) else None
+    there = b[k] if k < len(b) else None
+    prop = rec["plan"]["prop"] if rec.get("plan") else "C16"
+    rec.setdefault("violations", []).append(
+        {
+            "prop": prop,
+            "oracle": "same_result_in_a_process_that_ran_nothing_before",
+            "cls": "history_dependent",
+            "where": "",
+            "detail": "operation log entry %d: %r after the earlier runs of this process, %r when the same run is executed alone in a new process" % (k, here, there),
+        }
+    )
+
+
 # ====================================================================== C16
 
 
@@ -942,6 +989,7 @@ def plan_c16(run_seed):
     p_bad = t.choice([0.3, 0.5, 0.7])
     p_interrupt = t.choice([0.0, 0.15, 0.3])
     p_nested = t.choice([0.0, 0.3])
+    p_shared_be = t.choice([0.0, 0.0, 0.6])
     ncorrupt = 0
     for _ in range(nops):
         ti = t.randrange(len(texts))
@@ -963,13 +1011,15 @@ def plan_c16(run_seed):
             kw["return_usepulses"] = True
         if t.chance(p_bad) and "raw" not in e:
             # a corrupted variant of text ti becomes a new text entry
-            ops.append({"op": "corrupt", "text": ti, "seed": t.randrange(1 << 30), "kw": kw, "via": t.weighted([("string", 5), ("file", 2), ("sexpr", 1), ("header", 0.5), ("run", 1.0 if not e.get("anon") else 0.2), ("run_file", 0.7 if e.get("pulses") else 0)])})
+            ops.append({"op": "corrupt", "text": ti, "seed": t.randrange(1 << 30), "kw": kw, "shared_be": t.chance(p_shared_be), "via": t.weighted([("string", 5), ("file", 2), ("sexpr", 1), ("header", 0.5), ("run", 1.0 if not e.get("anon") else 0.2), ("run_file", 0.7 if e.get("pulses") else 0)])})
             ncorrupt += 1
             continue
         via = t.weighted([("string", 5), ("file", 1.5), ("sexpr", 1), ("header", 0.6), ("header_file", 0.3), ("run_string", 2 if e.get("pulses") else 0), ("run_file", 1 if e.get("pulses") else 0), ("run", 3 if not e.get("anon") else 0.5)])
         op = {"op": "parse", "text": ti, "kw": kw if via in ("string", "file", "run") else {}, "via": via}
         if via in ("run", "run_string", "run_file"):
             op["variant"] = t.randrange(4)  # the gate definitions in force for this call
+        if via == "run" and t.chance(p_shared_be):
+            op["shared_be"] = True
         if t.chance(p_interrupt):
             op["interrupt"] = t.random()
         if via in ("run", "run_string", "run_file") and e.get("exec") and t.chance(p_nested):
@@ -1089,6 +1139,9 @@ def c16_callable(S, op, j):
             s = seams.SimSampler(Tape(seed), "faithful")
             old = seams.install_sampler(s)
             try:
+                if op.get("shared_be"):
+                    # the caller's own backend object, the same one for every such call
+                    return run_jaqal_circuit(c, backend=S.shared_backend())
                 return run_jaqal_circuit(c)
             finally:
                 seams.install_sampler(old)
@@ -1183,6 +1236,8 @@ def materialise_c16(plan):
                 ne["pulses"] = src["pulses"]
             texts.append(ne)
             ops.append({"op": "parse", "text": len(texts) - 1, "kw": op.get("kw", {}), "via": op.get("via", "string"), "fault": fd})
+            if op.get("shared_be") and op.get("via") == "run":
+                ops[-1]["shared_be"] = True
         else:
             ops.append(op)
     return texts, ops
@@ -1430,13 +1485,14 @@ def sweep_c16(S, plan2, hist):
 
 def twin_many(plans):
     """A second process lifetime: the same parse-like operations in reversed order."""
-    out = []
-    for plan in plans:
+    out = [None] * len(plans)
+    # (the runs of the chunk in reversed order too: what one run leaves behind for the next)
+    for n in reversed(range(len(plans))):
+        plan = plans[n]
         if plan["prop"] != "C16" or plan.get("sweep"):
-            out.append(None)
             continue
         rec = exec_c16(plan, role="twin", order="reversed")
-        out.append({"twin_ref": rec["twin_ref"], "twin_waived": rec.get("twin_waived") or {}, "violations": rec["violations"]})
+        out[n] = {"twin_ref": rec["twin_ref"], "twin_waived": rec.get("twin_waived") or {}, "violations": rec["violations"]}
     return out
 
 
